@@ -107,6 +107,19 @@ FIRST_MISSED = {  # caught only after the extension named here (recorded while t
  "C19-m10": "a fourth kind of damage in the C19 CLI layer: two bytes inserted (a branch file that holds an id followed by further hex digits)",
  "C20-m9": "names with a backslash followed by `t`, `n`, `r`",
  "C10-m6": "the violation was found but could not be replayed (the step carried a commit id of the generating run): steps now name commits symbolically (`@commit#n`)",
+ # round 6 (m11/m12; 36 changes, the agents worked under a time limit of about 25 minutes)
+ "C03-m12": "not caught by C03 (the staged metadata file only disconnects the repository after a later `rm`); caught by C17, whose `add` arguments include absolute spellings of paths inside `.goit`",
+ "C05-m12": "not caught by C05 — a journal defect (the checkout record of `switch` carries the id of the branch that was left); caught by C11",
+ "C10-m11": "C10 API layer: a `bulk` operation creates 255 … 513 branches and a fresh `NewRefs` (what the next process sees) must list every one of them; `reload` operations in the middle of the history",
+ "C10-m12": "branch names of 240, 255 and 255 bytes (one a 240-byte prefix of another) in the branch pool of every profile",
+ "C12-m12": "e-mail addresses over the whole shape `commit` accepts: top-level labels of 2 … 14 letters, upper-case host labels, longer local parts (was 2 … 5 letters)",
+ "C13-m12": "`.goitignore` entries whose last byte is a blank (`*.tmp `, with files `a.tmp ` next to `a.tmp`)",
+ "C14-m12": "not caught by C14 (its oracle compares messages without their final line breaks); caught by C02, which demands the recorded message byte for byte",
+ "C17-m11": "ignore entries and directories whose name starts with `#` or `!` (`#a/`, `!x/`): an entry is a name, not a remark or a negation",
+ "C18-m12": "`add` may name a tracked path whose parent directory was replaced by a regular file (stat answers ENOTDIR), and the robustness profile got the `dir2file` / `file2dir` steps; also caught by C04",
+ "C19-m11": "the C19 repository holds the zero-length blob, so that the object swaps include an object file whose content has no byte to compare (the first run 'caught' it only through the then unrepaired defect 51d54b4)",
+ "C20-m12": "new step `forget-global-config` (the global file disappears after the history began): a commit with an identity that has become incomplete must be refused without side effects",
+ "C09-m12": "caught as built (names that start with the byte 0xFF); patch carried over, its import hunk collided with 51d54b4 (patch.ported.diff)",
 }
 print("### D.1 Changes written by independent sub-agents (`seeded/<ID>-mN/`)\n")
 print("Each was confirmed with `lib/intake.sh` when it was written (demonstration exits 0 on the clean tree; with the patch the tree builds, the unit tests pass, the demonstration exits 1). \"quick check\" is the exit status of the property's quick tier (and of neighbouring checks where named) against the patched tree in the last re-run with the final harness. `/repo` moved on by more than twenty repairs after rounds 3 and 4: where a patch no longer applies to the final tree, a hand-carried version (`patch.ported.diff`) was used if there is one; otherwise the patch was applied to the tree of its round (marked *old base*), on which the final checks also flag that tree's own, since repaired, defects — an exit 1 there says little, and \"confirmation incomplete\" then only means that the demonstration no longer distinguishes. A demonstration that passes on the final tree with the patch means that a later repair neutralised the change. The record that counts for those rows is the *first detection* column, written when the change was first taken in.\n")
